@@ -260,6 +260,10 @@ def special_shapes(tier):
         ("dict", (("a", False, ("alias", "Outer", ("alias", "Inner", S("int", ("min", 1))))),), False),
         ("list", ("typed", ("alias", "O3", ("alias", "O2", ("alias", "O1", S("str", ln(1, 2)))))), ()),
         ("list", ("elems", (INT, ("alias", "Outer", ("alias", "Inner", S("str", ("alphabet", "ab")))))), ()),
+        # user-defined alias classes whose props supply the aliased type themselves
+        ("ualias", "slug"), ("ualias", "point"), ("alias", "S", ("ualias", "slug")),
+        ("dict", (("a", False, ("ualias", "slug")), ("b", True, ("ualias", "point"))), False),
+        ("list", ("typed", ("ualias", "point")), ()), ("any", (("ualias", "slug"), NONE)),
         # braces in a str key (format-template characters), alone and as an any alternative
         braces, ("any", (braces, NONE)), ("list", ("elems", (E, braces, E)), ()),
     ]
